@@ -208,14 +208,18 @@ impl Array {
         let filter_count = self.dimensions[self.dimensions.len() - 1];
 
         let values_length = self.values.len();
-        // the stride between two convolution outputs
-        let stride = values_length / filter_count;
+        // the stride between two convolution outputs of the same image
+        let stride = self.dimensions[self.dimensions.len() - 2];
+        // the length of each convolved image
+        let image_length = stride * filter_count;
         let mut result = vec![0.0; values_length];
         let mut result_index = 0;
-        for k in 0..filter_count {
-            for i in 0..stride {
-                result[result_index] = self.values[k + filter_count * i];
-                result_index += 1;
+        for b in 0..values_length / image_length {
+            for k in 0..filter_count {
+                for i in 0..stride {
+                    result[result_index] = self.values[image_length * b + k + filter_count * i];
+                    result_index += 1;
+                }
             }
         }
 
@@ -235,10 +239,12 @@ impl Array {
             let backward_op: BackwardOp = Rc::new(move |c, _, x| {
                 let mut result = vec![0.0; values_length];
                 let mut delta_index = 0;
-                for k in 0..filter_count {
-                    for i in 0..stride {
-                        result[k + filter_count * i] = x.values[delta_index];
-                        delta_index += 1;
+                for b in 0..values_length / image_length {
+                    for k in 0..filter_count {
+                        for i in 0..stride {
+                            result[image_length * b + k + filter_count * i] = x.values[delta_index];
+                            delta_index += 1;
+                        }
                     }
                 }
 
